@@ -15,6 +15,9 @@ Sections:
      protected methods, plain attributes, both definition styles; round trip of the generated source through reflection
   D  histories on a 3-level class graph: declaration at every level, instances created before and after, behaviour
      attached at the declaring class or below, removal; plus seeded random histories
+  E  the same EOperation OBJECT declared again after its eParameters were edited in place (removed and re-added, moved
+     to a sub-/supertype or an unrelated class, re-appended while declared): signature and call outcomes follow the
+     CURRENT declaration on instances created before and after (composite ops 'editop' / 'redecl' of metaedit_io)
 """
 import itertools
 import keyword
@@ -69,6 +72,8 @@ def qualifiers(name, params, via='append'):
         q.append('enum-typed-optional-parameter')
     if via == 'extend' and not q:
         q.append('bulk-add')
+    if via.startswith('redecl') and not q:
+        q.append('re-declared')
     return sorted(q)
 
 
@@ -115,7 +120,7 @@ def split_records(tokens, nops):
 def compare_history(out, model, intern, history, names, case, stats, init_flag=False, impl_result=None):
     """Run history on model and implementation; report the first difference.  -> impl result"""
     r = impl_result or mio.run_impl(history, names, intern)
-    mt = model.ask('metaedit', mio.model_tokens(history, names, init_flag, intern))
+    mt = mio.model_ask(model, history, names, init_flag, intern)
     stats['histories'] += 1
     stats['ops'] += len(history)
     for op, (code, _) in zip(history, r['per_op']):
@@ -446,7 +451,8 @@ class Spec:
     def __init__(self, out, intern):
         self.out, self.intern = out, intern
         self.ns = {c: {} for c in PARENT}     # class -> attr name -> ('stub', name, params, via) | ('beh', b) | ('unknown',)
-        self.decl = {c: [] for c in PARENT}   # class -> [(name, params, ok)]
+        self.decl = {c: [] for c in PARENT}   # class -> [(name, params)]
+        self.dead = {}                        # (class, name) -> parameters of the operation object taken out of that class
         self.inst = []
 
     def expect(self, i, n):
@@ -455,6 +461,18 @@ class Spec:
                 return self.ns[c][n]
         return ('absent',)
 
+    def declare(self, c, name, params, via, code, case):
+        self.decl[c].append((name, params))
+        if not in_quantifier(name, params):
+            self.ns[c][norm(name)] = ('unknown',)
+        elif code != 0:
+            self.out.fail({'property': 'C20', 'culprit': 'add-operation', 'clause': 'add-gives-method',
+                           'qualifiers': qualifiers(name, params, via)},
+                          f'adding operation {name}({params}) raised (outcome code {code})', case)
+            self.ns[c][norm(name)] = ('unknown',)
+        else:
+            self.ns[c][norm(name)] = ('stub', name, params, via)
+
     def feed(self, op, res, case):
         code, payload = res
         k = op[0]
@@ -462,23 +480,42 @@ class Spec:
             self.inst.append(op[1])
         elif k == 'addop':
             _, c, name, params, via = op
-            if in_quantifier(name, params):
-                self.decl[c].append((name, params))
-                if code != 0:
-                    self.out.fail({'property': 'C20', 'culprit': 'add-operation', 'clause': 'add-gives-method',
-                                   'qualifiers': qualifiers(name, params, via)},
-                                  f'adding operation {name}({params}) raised (outcome code {code})', case)
-                    self.ns[c][norm(name)] = ('unknown',)
-                else:
-                    self.ns[c][norm(name)] = ('stub', name, params, via)
-            else:
-                self.decl[c].append((name, params))
+            self.declare(c, name, params, via, code, case)
+        elif k == 'editop':
+            # the parameters of an operation object change in place; while it is declared the method is not judged
+            # (the property speaks of adding and removing operations), it is again once the object is declared anew
+            _, c, name, edits = op
+            hit = next((d for d in self.decl[c] if d[0] == name), None)
+            if hit is not None:
+                self.decl[c][self.decl[c].index(hit)] = (name, mio.apply_param_edits(hit[1], edits))
                 self.ns[c][norm(name)] = ('unknown',)
+            elif (c, name) in self.dead:
+                self.dead[(c, name)] = mio.apply_param_edits(self.dead[(c, name)], edits)
+        elif k == 'redecl':
+            _, dst, src, name, via = op
+            hit = next((d for d in self.decl[src] if d[0] == name), None)
+            if hit is not None:               # still declared in src: the object moves (or keeps its place when dst is src)
+                at = self.decl[src].index(hit)
+                self.decl[src].remove(hit)
+                self.ns[src].pop(norm(name), None)
+                if code != 0:
+                    self.ns[src][norm(name)] = ('unknown',)
+                params = hit[1]
+            else:
+                params = self.dead.pop((src, name), [])
+            self.declare(dst, name, params, 'redecl-' + via, code, case)
+            if hit is not None and src == dst:
+                self.decl[dst].insert(at, self.decl[dst].pop())
+        elif k == 'popop':
+            c, idx = op[1], op[2]
+            if -len(self.decl[c]) <= idx < len(self.decl[c]):
+                self.feed(['rmop', c, self.decl[c][idx][0]], res, case)
         elif k == 'rmop':
             _, c, name = op
             hit = next((d for d in self.decl[c] if d[0] == name), None)
             if hit is not None:
                 self.decl[c].remove(hit)
+                self.dead[(c, name)] = hit[1]
                 was = self.ns[c].pop(norm(name), None)
                 if code != 0 and was is not None and was[0] != 'unknown':
                     self.out.fail({'property': 'C20', 'culprit': 'remove-operation', 'clause': 'remove-raises',
@@ -488,6 +525,8 @@ class Spec:
         elif k == 'clearops':
             c = op[1]
             names = [d[0] for d in self.decl[c]]
+            for d in self.decl[c]:
+                self.dead[(c, d[0])] = d[1]
             self.decl[c] = []
             unknown = any(self.ns[c].get(norm(n), ('unknown',))[0] == 'unknown' for n in names)
             for n in names:
@@ -642,6 +681,211 @@ def section_d(out, model, intern, stats, ctx):
             stats['samples'].append(case)
 
 
+# ---------------------------------------------------------------- section E: the same EOperation object declared again
+def fresh_names(params, n):
+    used = {p[0] for p in params}
+    return [x for x in ('g', 'h', 's', 't', 'u', 'v', 'w', 'k', 'm', 'n', 'q', 'r', 'y', 'z') if x not in used][:n]
+
+
+def valid_edits(params):
+    """Single in-place edits of a required-first parameter list that keep it required-first, with fresh names."""
+    nreq = sum(1 for p in params if p[1])
+    n = len(params)
+    g, h_, s_, t_ = fresh_names(params, 4)
+    out = [[['append', [g, 0, 'str']]], [['insert', 0, [s_, 1, 'int']]], [['insert', nreq, [t_, 1, 'ref']]],
+           [['insert', nreq, [h_, 0, 'bool']]]]
+    if n == nreq:
+        out.append([['append', [h_, 1, 'str']]])
+    if n:
+        out += [[['remove', 0]], [['remove', n - 1]]]
+    if nreq:
+        out.append([['flip', nreq - 1]])            # the last required one becomes optional
+    if n > nreq:
+        out.append([['flip', nreq]])                # the first optional one becomes required
+    if nreq >= 2:
+        out.append([['move', 0, nreq - 1]])         # required ones reordered
+    if n - nreq >= 2:
+        out.append([['move', n - 1, nreq]])         # optional ones reordered
+    if n >= 2:
+        out.append([['remove', 0], ['append', [g, 0, 'int']]])
+    return out
+
+
+def probe(h, insts, nn, params):
+    nreq = sum(1 for p in params if p[1])
+    for i in insts:
+        h.append(['sig', i, nn])
+        h.append(['call', i, nn, nreq])
+    h.append(['call', insts[0], nn, len(params)])
+    h.append(['call', insts[-1], nn, len(params) + 1])
+    if nreq:
+        h.append(['call', insts[-1], nn, nreq - 1])
+
+
+def redecl_scenario(name, params, edits, src, dst, mode, beh, via):
+    """Instances before; declare `name` at src; instances after; look; [attach]; take the operation out of src
+    (mode 'remove': remove, edit, declare the same object at dst; 'live': edit while declared, then append to dst,
+    which moves it; 'move': append to dst unedited, remove there, edit, declare at src again); instances after;
+    look at every instance; then the way back with the edit undone by a second edit."""
+    nn = norm(name)
+    h = list(GRAPH) + [['newinst', c] for c in (1, 2, 3, 4)]
+    h.append(['addop', src, name, params, 'append'])
+    h += [['newinst', c] for c in (1, 2, 3, 4)]
+    probe(h, [src - 1, 2, src + 3, 6], nn, params)
+    if beh is not None:
+        h.append(['attach', beh, nn, 41])
+        h.append(['call', 2, nn, 0])
+    cur = params
+    if mode == 'remove':
+        h.append(['rmop', src, name])
+        h.append(['sig', src - 1, nn])
+        h.append(['editop', src, name, edits])
+        cur = mio.apply_param_edits(cur, edits)
+        h.append(['redecl', dst, src, name, via])
+        at = dst
+    elif mode == 'live':
+        h.append(['editop', src, name, edits])
+        cur = mio.apply_param_edits(cur, edits)
+        h.append(['redecl', dst, src, name, via])
+        at = dst
+    else:
+        h.append(['redecl', dst, src, name, via])
+        probe(h, [dst - 1, 2, 6], nn, cur)
+        h.append(['rmop', dst, name])
+        h.append(['editop', dst, name, edits])
+        cur = mio.apply_param_edits(cur, edits)
+        h.append(['redecl', src, dst, name, via])
+        at = src
+    h += [['newinst', c] for c in (1, 2, 3, 4)]
+    probe(h, list(range(12)), nn, cur)
+    # a second round: out again, one more parameter in front, back in at the first class
+    h.append(['popop', at, -1, 'pop'])
+    e2 = [['insert', 0, [fresh_names(cur, 1)[0], 1, 'int']]]
+    h.append(['editop', at, name, e2])
+    cur = mio.apply_param_edits(cur, e2)
+    h.append(['redecl', src, at, name, 'append'])
+    probe(h, [0, 1, 2, 3, 8, 9, 10, 11], nn, cur)
+    return h
+
+
+def random_redecl_history(rng, n):
+    h = list(GRAPH)
+    t = mio.Tracker()
+    for op in h:
+        t.expand(op)
+    names = ['run', 'class', 'go']
+    shapes = [shape(r, o) for r in range(3) for o in range(3)]
+    ninst = 0
+    has_method = {}      # (class, name) of a declared operation -> its declaration gave a method
+
+    def emit(op):
+        h.append(op)
+        t.expand(op)
+        if op[0] in ('addop', 'redecl'):
+            has_method[(op[1], op[3] if op[0] == 'redecl' else op[2])] = in_quantifier(
+                op[2] if op[0] == 'addop' else op[3], t.find_op(op[1], op[3] if op[0] == 'redecl' else op[2])[1])
+    for _ in range(n):
+        x = rng.random()
+        live = [(c, nm) for c in t.ops for nm, _ in t.ops[c]]
+        dead = list(t.dead)
+        if x < 0.15 or ninst == 0:
+            emit(['newinst', rng.randint(1, 4)])
+            ninst += 1
+        elif x < 0.30:
+            c, nm = rng.randint(1, 4), rng.choice(names)
+            if (c, nm) in live:
+                continue
+            emit(['addop', c, nm, rng.choice(shapes), rng.choice(['append', 'extend'])])
+        elif x < 0.40:
+            if not live:
+                continue
+            c, nm = rng.choice(live)
+            y = rng.random()
+            if y < 0.6:
+                emit(['rmop', c, nm])
+            elif y < 0.8:
+                emit(['clearops', c, rng.choice(['clear', 'delslice', 'delattr', 'assign'])])
+            else:
+                emit(['popop', c, rng.choice([-1, 0]), rng.choice(['pop', 'delitem'])])
+        elif x < 0.55:
+            known = dead + ([rng.choice(live)] if live and rng.random() < 0.4 else [])
+            if not known:
+                continue
+            c, nm = rng.choice(known)
+            ps = t.find_op(c, nm)[1]
+            es = valid_edits(ps)
+            if rng.random() < 0.1:
+                es.append([['flip', 0]] if ps else [['append', ['g', 0, 'int']]])      # possibly ill-ordered: outside the property
+            emit(['editop', c, nm, rng.choice(es)])
+        elif x < 0.72:
+            # (an operation whose declaration gave no method cannot leave its class through a plain call: delattr
+            #  fails in the middle; that is outside the property and outside the sequence reading of 'redecl')
+            known = dead + [x for x in live if has_method.get(x)]
+            if not known:
+                continue
+            src, nm = rng.choice(known)
+            dst = src if rng.random() < 0.35 else rng.randint(1, 4)
+            if (dst, nm) in live and not (dst == src and (src, nm) in live):
+                continue
+            emit(['redecl', dst, src, nm, rng.choice(['append', 'append', 'extend', 'insert', 'iadd'])])
+        elif x < 0.77:
+            emit(['attach', rng.randint(1, 4), norm(rng.choice(names)), rng.randint(1, 9)])
+        elif x < 0.90:
+            emit(['sig', rng.randrange(ninst), norm(rng.choice(names))])
+        else:
+            emit(['call', rng.randrange(ninst), norm(rng.choice(names)), rng.randint(0, 4)])
+    # look at everything at the end
+    for nm in names:
+        for i in range(ninst):
+            h.append(['sig', i, norm(nm)])
+    return h
+
+
+def redeclare_scenarios(ctx, out, model=None, intern=None, stats=None):
+    """Own PRNG stream; every failing case carries scenario/seed/tier/history."""
+    thorough = ctx.tier == 'thorough'
+    rng = common.rng_for(ctx.seed, 'C20:redeclare')
+    own_model = model is None
+    if own_model:
+        model, intern = common.Model(), mio.Interner()
+        stats = {'histories': 0, 'ops': 0, 'op_kinds': {}, 'outcomes': {}, 'samples': []}
+    stats.setdefault('redeclare_scenarios', 0)
+    stats.setdefault('redeclare_random', 0)
+    tag = {'scenario': 'redeclare', 'seed': ctx.seed, 'tier': ctx.tier}
+    k = 0
+    targets = {1: [1, 2, 4], 2: [2, 3, 1, 4]}          # same class, a subtype, (a supertype,) an unrelated class
+    vias = ['append', 'extend', 'insert', 'iadd']
+    for name in ('run', 'class'):
+        for r in range(3):
+            for o in range(3):
+                params = shape(r, o)
+                for edits in valid_edits(params):
+                    for src in (1, 2):
+                        for dst in targets[src]:
+                            for mode in ('remove', 'live', 'move'):
+                                k += 1
+                                if mode == 'move' and dst == src:
+                                    continue
+                                if name == 'class' and (k % 4):
+                                    continue
+                                if not thorough and (k % 3) != (ctx.seed % 3) and mode != 'remove':
+                                    continue
+                                beh = [None, None, src, min(src + 1, 3)][k % 4]
+                                h = redecl_scenario(name, params, edits, src, dst, mode, beh, vias[k % 4])
+                                case = dict(tag, section='E', history=h, names=[norm(name), name])
+                                run_history(out, model, intern, h, case['names'], case, stats)
+                                stats['redeclare_scenarios'] += 1
+    for j in range(3000 if thorough else 500):
+        h = random_redecl_history(rng, rng.randint(8, 24))
+        case = dict(tag, section='E-random', history=h, names=['run', 'class_', 'class', 'go'])
+        run_history(out, model, intern, h, case['names'], case, stats)
+        stats['redeclare_random'] += 1
+        if j < 1:
+            stats['samples'].append(case)
+    if own_model:
+        model.close()
+
+
 # ---------------------------------------------------------------- entry points
 def run(ctx, out):
     common.use_repo()
@@ -654,17 +898,23 @@ def run(ctx, out):
     section_c(out, model, intern, stats, ctx.tier == 'thorough')
     static_hierarchy_cases(out, model, stats, common.rng_for(ctx.seed, 'C20:hierarchy'), 60 if ctx.tier != 'thorough' else 1500)
     section_d(out, model, intern, stats, ctx)
+    redeclare_scenarios(ctx, out, model, intern, stats)
     model.close()
     if mio.flag_installed():
         out.diff('Metasubinstance.mro is replaced at the end of the C20 run', {'global': True})
     n = stats['decls'] + stats['static_bodies'] + stats['roundtrips'] + stats['histories']
     out.coverage.update({
         'evaluations': n + stats['kw'],
-        'distinct_nontrivial': stats['decls'] + stats['static_bodies'] + stats['scenarios'] + stats['random_histories'],
+        'distinct_nontrivial': stats['decls'] + stats['static_bodies'] + stats['scenarios'] + stats['random_histories']
+                               + stats['redeclare_scenarios'] + stats['redeclare_random'],
         'rule': 'a case = one declaration on a fresh class (B), one generated static class body (C), or one history on the '
                 '3-level graph (D); B is exhaustive over <=3 required + <=3 optional parameters x {plain, keyword, None} names '
                 'plus every ill-ordered flag vector of length <=4 and the listed odd names; D declares each of them at every '
-                'level with instances created before and after, behaviour at the class or below, both add paths, then removes',
+                'level with instances created before and after, behaviour at the class or below, both add paths, then removes; '
+                'E (own PRNG stream) takes a declared operation OBJECT out of its class (remove / pop / move to the same class, a '
+                'subtype, a supertype, an unrelated class), edits its eParameters in place (append, insert, remove, required flag, '
+                'reorder), declares the same object again and compares signature and call outcomes of old and new instances with '
+                'the current declaration, plus seeded random histories over that alphabet',
         'traces_validated_against_impl': n,
         'keyword_table_entries_checked': stats['kw'],
         'declarations': stats['decls'], 'declaration_outcomes_by_code': stats['decl_outcomes'],
@@ -672,6 +922,7 @@ def run(ctx, out):
         'histories': stats['histories'], 'history_ops': stats['ops'],
         'history_ops_by_kind': stats['op_kinds'], 'history_outcomes_by_code': stats['outcomes'],
         'scenarios': stats['scenarios'], 'random_histories': stats['random_histories'],
+        'redeclare_scenarios': stats['redeclare_scenarios'], 'redeclare_random_histories': stats['redeclare_random'],
         'samples': stats['samples'][:6],
     })
     out.assumptions += [
@@ -683,6 +934,8 @@ def run(ctx, out):
         'EDataType with default, an EEnum',
         'varargs / keyword-only parameters of static methods are not generated (getfullargspec().args ignores them)',
         'RestrictedPython compiles the generated source: its naming policy is part of the model (Operations.restricted_name)',
+        'parameters edited while the operation is declared: the method is not judged until the operation is declared again '
+        '(pyecore regenerates a method only when an operation enters eOperations; the property speaks of adding and removing)',
     ]
 
 
